@@ -115,6 +115,17 @@ pub fn tricky_strings() -> &'static Vec<String> {
         .iter()
         .map(|s| s.to_string())
         .collect();
+        // white space at either end (a writer that "cleans up" names), also the full-width space
+        for w in [" x", "x ", "\tx", "x\t", "\u{3000}x", "x\u{3000}", "  ", "\u{3000}", " a b "] {
+            v.push(w.to_string());
+        }
+        // runs of characters that are ONE byte in Shift-JIS and THREE in UTF-8 (half-width
+        // katakana): a buffer sized from the other encoding's length is too small for them
+        v.push("ﾏｯﾌﾟﾃﾞｰﾀ".to_string());
+        v.push("ｱｲｳｴｵｶｷｸｹｺ.bin".to_string());
+        for n in [5usize, 16, 40, 100] {
+            v.push("ｱ".repeat(n));
+        }
         for c in class_representatives() {
             v.push(c.to_string());
             v.push(format!("{}n", c));
